@@ -1,1 +1,1270 @@
-//! C23: not implemented yet.
+//! C23 — the NTP packet decoder is total (never panics, always returns) in the three key
+//! contexts (no keys / client session cipher / server cookie key set).
+//!
+//! This file also holds the **shared byte-level datagram grammar** used by C23, C24 and C25
+//! (`pub(super)` items, reached from the siblings as `super::c23::…`):
+//!
+//! * 48-byte v3/v4/v5 headers written field by field, with boundary values,
+//! * extension fields framed by hand (`Field`): type, *declared* length and the bytes that
+//!   physically follow are independent, so non-canonical / too short / not-multiple-of-4 /
+//!   overlong lengths are expressible; all known field types + unknown ones,
+//! * valid NTS authenticator fields, sealed at assembly time over harness-chosen plaintext
+//!   and the bytes assembled so far as AAD. Deviation from DESIGN.md: not with
+//!   `Cipher::encrypt` (it draws a random nonce from `thread_rng`, so byte values - and with
+//!   them the enumeration counts - would differ between runs) but with the AES-SIV primitive
+//!   the crate's ciphers wrap, same keys, same `[aad, nonce]` convention, harness-chosen
+//!   nonces (16 and 13 bytes). `Env::new` cross-checks the convention against
+//!   `Cipher::encrypt`/`decrypt` and the hand-made server cookies against
+//!   `KeySet::decode_cookie`. C25 (whose counts do not depend on byte values) additionally
+//!   uses authenticators sealed by `Cipher::encrypt` itself (`auth_crate`),
+//! * raw MAC tails of 3/4/16/20/24/25/28 bytes,
+//! * `sweep`: the base datagram, every truncation, every single-byte substitution from a
+//!   small pattern set at every offset, and +-1/+-4 on every 16-bit length field,
+//! * `Plan`: the staged, indexable enumeration of all field sequences up to a length over
+//!   the alphabets (engine E-IN; threads only partition the index space).
+//!
+//! Oracle of C23 (from the statement): every call returns `Ok` or `Err`; a caught panic is a
+//! violation. Termination: every planned call is counted when it returns
+//! (`evaluations == planned`), a hang would stall the check itself.
+use std::collections::{BTreeMap, HashSet};
+
+use super::common::{self, Ctx};
+use crate::keyset::{DecodedServerCookie, KeySet};
+use crate::nts::AeadAlgorithm;
+use crate::packet::v5::V5Error;
+use crate::packet::{
+    AesSivCmac256, AesSivCmac512, Cipher, NoCipher, NtpPacket, PacketParsingError,
+};
+
+// ---------------------------------------------------------------------------------------
+// keys, ciphers, cookies
+// ---------------------------------------------------------------------------------------
+
+#[derive(Clone, Copy, PartialEq, Eq, Debug, Hash)]
+pub(super) enum Alg {
+    A256,
+    A512,
+}
+
+#[derive(Clone, Copy, PartialEq, Eq, Debug, Hash)]
+pub(super) enum Dir {
+    C2S,
+    S2C,
+}
+
+impl Alg {
+    pub(super) fn aead(self) -> AeadAlgorithm {
+        match self {
+            Alg::A256 => AeadAlgorithm::AeadAesSivCmac256,
+            Alg::A512 => AeadAlgorithm::AeadAesSivCmac512,
+        }
+    }
+    pub(super) fn idx(self) -> usize {
+        match self {
+            Alg::A256 => 0,
+            Alg::A512 => 1,
+        }
+    }
+    pub(super) fn tag(self) -> &'static str {
+        match self {
+            Alg::A256 => "256",
+            Alg::A512 => "512",
+        }
+    }
+}
+
+impl Dir {
+    pub(super) fn idx(self) -> usize {
+        match self {
+            Dir::C2S => 0,
+            Dir::S2C => 1,
+        }
+    }
+}
+
+/// Harness-chosen session keys (fixed, distinct per algorithm and direction).
+pub(super) fn key_bytes(alg: Alg, dir: Dir) -> Vec<u8> {
+    let n = match alg {
+        Alg::A256 => 32,
+        Alg::A512 => 64,
+    };
+    let base: u8 = match dir {
+        Dir::S2C => 0x11,
+        Dir::C2S => 0x83,
+    };
+    (0..n).map(|i| base.wrapping_add((i as u8).wrapping_mul(3))).collect()
+}
+
+pub(super) fn new_cipher(alg: Alg, dir: Dir) -> Box<dyn Cipher> {
+    let k = key_bytes(alg, dir);
+    match alg {
+        Alg::A256 => Box::new(AesSivCmac256::try_from(&k[..]).expect("key size")),
+        Alg::A512 => Box::new(AesSivCmac512::try_from(k).expect("key size")),
+    }
+}
+
+/// Everything key related, built once and shared (read-only) by all worker threads.
+pub(super) struct Env {
+    pub keyset: KeySet,
+    /// `[alg][dir]`
+    pub ciphers: [[Box<dyn Cipher>; 2]; 2],
+    /// server cookies (valid for the key set) carrying the session keys of `[alg]`
+    pub cookies: [Vec<u8>; 2],
+    /// failed start-up cross-checks of the harness's own sealing against the crate's
+    /// `Cipher` / `KeySet` (empty on a sane tree)
+    pub self_test: Vec<String>,
+}
+
+impl Env {
+    pub(super) fn new() -> Env {
+        let keyset = KeySet::new();
+        let ciphers = [
+            [new_cipher(Alg::A256, Dir::C2S), new_cipher(Alg::A256, Dir::S2C)],
+            [new_cipher(Alg::A512, Dir::C2S), new_cipher(Alg::A512, Dir::S2C)],
+        ];
+        // Server cookies carrying our session keys. `KeySet::encode_cookie` draws a random
+        // nonce, which would make the enumeration differ from run to run, so the cookie is
+        // laid out by hand (key id 1 = primary 0 + id_offset 1 of `KeySet::new()`, ciphertext
+        // length, 16-byte nonce, AES-SIV-CMAC-512 under the all-zero key of `KeySet::new()`
+        // over `algorithm id || s2c key || c2s key`) and then CHECKED with the crate's own
+        // `decode_cookie` (a mismatch lands in `self_test`, which every check reports).
+        let self_test = std::cell::RefCell::new(Vec::<String>::new());
+        let mk = |alg: Alg| -> Vec<u8> {
+            use aes_siv::KeyInit;
+            let mut pt = u16::from(alg.aead()).to_be_bytes().to_vec();
+            pt.extend(key_bytes(alg, Dir::S2C));
+            pt.extend(key_bytes(alg, Dir::C2S));
+            let nonce = filler(16, 0xC1 + alg.idx() as u8);
+            let ct = aes_siv::siv::Aes256Siv::new_from_slice(&[0u8; 64])
+                .expect("key")
+                .encrypt([&[][..], &nonce[..]], &pt)
+                .expect("siv");
+            let mut c = 1u32.to_be_bytes().to_vec();
+            c.extend((ct.len() as u16).to_be_bytes());
+            c.extend(&nonce);
+            c.extend(&ct);
+            match keyset.decode_cookie(&c) {
+                Ok(back) => {
+                    if back.s2c.key_bytes() != &key_bytes(alg, Dir::S2C)[..]
+                        || back.c2s.key_bytes() != &key_bytes(alg, Dir::C2S)[..]
+                        || back.algorithm != alg.aead()
+                    {
+                        self_test.borrow_mut().push(format!("hand-made cookie ({}) decodes to other keys", alg.tag()));
+                    }
+                }
+                Err(_) => self_test.borrow_mut().push(format!("hand-made cookie ({}) is rejected by KeySet::decode_cookie", alg.tag())),
+            }
+            // and the crate's own encoder produces a cookie of the same size
+            let theirs = keyset.encode_cookie(&DecodedServerCookie {
+                algorithm: alg.aead(),
+                s2c: new_cipher(alg, Dir::S2C),
+                c2s: new_cipher(alg, Dir::C2S),
+            });
+            if theirs.len() != c.len() {
+                self_test.borrow_mut().push(format!("cookie length differs from KeySet::encode_cookie ({})", alg.tag()));
+            }
+            c
+        };
+        let cookies = [mk(Alg::A256), mk(Alg::A512)];
+        // the crate's `Cipher::encrypt`/`decrypt` and the bare primitive follow the same convention
+        for alg in [Alg::A256, Alg::A512] {
+            for dir in [Dir::C2S, Dir::S2C] {
+                let c = ciphers[alg.idx()][dir.idx()].as_ref();
+                let (nonce, ct) = crate_encrypt(c, b"aad", b"plaintext!!!");
+                if siv_encrypt(alg, dir, &nonce, b"aad", b"plaintext!!!") != ct {
+                    self_test.borrow_mut().push(format!("Cipher::encrypt ({}) does not follow the AES-SIV [aad, nonce] convention", alg.tag()));
+                }
+                let n13 = filler(13, 7);
+                let sealed = siv_encrypt(alg, dir, &n13, b"aad", b"plaintext!!!");
+                if c.decrypt(&n13, &sealed, b"aad").ok().as_deref() != Some(&b"plaintext!!!"[..]) {
+                    self_test.borrow_mut().push(format!("Cipher::decrypt ({}) does not open an AES-SIV [aad, nonce] ciphertext", alg.tag()));
+                }
+            }
+        }
+        let mut self_test = self_test.into_inner();
+        self_test.sort();
+        self_test.dedup();
+        Env { keyset, ciphers, cookies, self_test }
+    }
+    pub(super) fn cipher(&self, alg: Alg, dir: Dir) -> &dyn Cipher {
+        self.ciphers[alg.idx()][dir.idx()].as_ref()
+    }
+}
+
+/// nonce, ciphertext produced by the crate's own cipher (random 16 byte nonce)
+fn crate_encrypt(c: &dyn Cipher, aad: &[u8], pt: &[u8]) -> (Vec<u8>, Vec<u8>) {
+    let mut buf = vec![0u8; pt.len() + 64];
+    buf[..pt.len()].copy_from_slice(pt);
+    let r = c.encrypt(&mut buf, pt.len(), aad).expect("encrypt");
+    (
+        buf[..r.nonce_length].to_vec(),
+        buf[r.nonce_length..r.nonce_length + r.ciphertext_length].to_vec(),
+    )
+}
+
+/// AES-SIV with a harness-chosen nonce of any length (the crate's `encrypt` always draws a
+/// random 16-byte nonce; its `decrypt` must accept any length). Same key, same
+/// associated-data convention (`[aad, nonce]`) as the crate.
+fn siv_encrypt(alg: Alg, dir: Dir, nonce: &[u8], aad: &[u8], pt: &[u8]) -> Vec<u8> {
+    use aes_siv::KeyInit;
+    use aes_siv::siv::{Aes128Siv, Aes256Siv};
+    let k = key_bytes(alg, dir);
+    match alg {
+        Alg::A256 => Aes128Siv::new_from_slice(&k).expect("key").encrypt([aad, nonce], pt).expect("siv"),
+        Alg::A512 => Aes256Siv::new_from_slice(&k).expect("key").encrypt([aad, nonce], pt).expect("siv"),
+    }
+}
+
+// ---------------------------------------------------------------------------------------
+// key contexts of the decoder
+// ---------------------------------------------------------------------------------------
+
+pub(super) enum KeyCtx<'a> {
+    /// `&NoCipher`
+    None,
+    /// what `NtpSource::handle_incoming` passes: `&Option<&dyn Cipher>` holding the s2c key
+    Client(&'a dyn Cipher),
+    /// what `Server::handle` passes: the key set
+    Server(&'a KeySet),
+}
+
+impl<'a> KeyCtx<'a> {
+    pub(super) fn decode<'d>(
+        &self,
+        data: &'d [u8],
+    ) -> Result<(NtpPacket<'d>, Option<DecodedServerCookie>), PacketParsingError<'d>> {
+        match self {
+            KeyCtx::None => NtpPacket::deserialize(data, &NoCipher),
+            KeyCtx::Client(c) => {
+                let provider: Option<&dyn Cipher> = Some(*c);
+                NtpPacket::deserialize(data, &provider)
+            }
+            KeyCtx::Server(k) => NtpPacket::deserialize(data, *k),
+        }
+    }
+}
+
+pub(super) const OUTCOMES: [&str; 14] = [
+    "ok_plain",
+    "ok_authenticated",
+    "ok_authenticated_with_cookie_keys",
+    "err_decrypt_with_packet",
+    "err_incorrect_length",
+    "err_invalid_version",
+    "err_malformed_nts_fields",
+    "err_malformed_nonce",
+    "err_malformed_cookie_placeholder",
+    "err_v5_draft_id",
+    "err_v5_timescale",
+    "err_v5_mode",
+    "err_v5_flags",
+    "ok_cookie_keys_without_authenticated_fields",
+];
+
+pub(super) fn outcome_class(
+    r: &Result<(NtpPacket<'_>, Option<DecodedServerCookie>), PacketParsingError<'_>>,
+) -> usize {
+    match r {
+        Ok((p, cookie)) => {
+            let (a, e, _, _) = crate::packet::verif_probe::gh::counts(p);
+            match (a + e > 0, cookie.is_some()) {
+                (false, false) => 0,
+                (true, false) => 1,
+                (true, true) => 2,
+                (false, true) => 13,
+            }
+        }
+        Err(PacketParsingError::DecryptError(_)) => 3,
+        Err(PacketParsingError::IncorrectLength) => 4,
+        Err(PacketParsingError::InvalidVersion(_)) => 5,
+        Err(PacketParsingError::MalformedNtsExtensionFields) => 6,
+        Err(PacketParsingError::MalformedNonce) => 7,
+        Err(PacketParsingError::MalformedCookiePlaceholder) => 8,
+        Err(PacketParsingError::V5(V5Error::InvalidDraftIdentification)) => 9,
+        Err(PacketParsingError::V5(V5Error::MalformedTimescale)) => 10,
+        Err(PacketParsingError::V5(V5Error::MalformedMode)) => 11,
+        Err(PacketParsingError::V5(V5Error::InvalidFlags)) => 12,
+    }
+}
+
+// ---------------------------------------------------------------------------------------
+// headers
+// ---------------------------------------------------------------------------------------
+
+#[allow(clippy::too_many_arguments)]
+pub(super) fn hdr_v34(
+    vn: u8,
+    li: u8,
+    mode: u8,
+    stratum: u8,
+    poll: u8,
+    precision: u8,
+    root_delay: u32,
+    root_disp: u32,
+    refid: [u8; 4],
+    ts: [u64; 4], // reference, origin, receive, transmit
+) -> [u8; 48] {
+    let mut h = [0u8; 48];
+    h[0] = (li << 6) | ((vn & 7) << 3) | (mode & 7);
+    h[1] = stratum;
+    h[2] = poll;
+    h[3] = precision;
+    h[4..8].copy_from_slice(&root_delay.to_be_bytes());
+    h[8..12].copy_from_slice(&root_disp.to_be_bytes());
+    h[12..16].copy_from_slice(&refid);
+    for (i, t) in ts.iter().enumerate() {
+        h[16 + 8 * i..24 + 8 * i].copy_from_slice(&t.to_be_bytes());
+    }
+    h
+}
+
+#[allow(clippy::too_many_arguments)]
+pub(super) fn hdr_v5(
+    li: u8,
+    mode: u8,
+    stratum: u8,
+    poll: u8,
+    precision: u8,
+    root_delay: u32,
+    root_disp: u32,
+    timescale: u8,
+    era: u8,
+    flags: [u8; 2],
+    server_cookie: u64,
+    client_cookie: u64,
+    rx: u64,
+    tx: u64,
+) -> [u8; 48] {
+    let mut h = [0u8; 48];
+    h[0] = (li << 6) | (5 << 3) | (mode & 7);
+    h[1] = stratum;
+    h[2] = poll;
+    h[3] = precision;
+    h[4..8].copy_from_slice(&root_delay.to_be_bytes());
+    h[8..12].copy_from_slice(&root_disp.to_be_bytes());
+    h[12] = timescale;
+    h[13] = era;
+    h[14..16].copy_from_slice(&flags);
+    h[16..24].copy_from_slice(&server_cookie.to_be_bytes());
+    h[24..32].copy_from_slice(&client_cookie.to_be_bytes());
+    h[32..40].copy_from_slice(&rx.to_be_bytes());
+    h[40..48].copy_from_slice(&tx.to_be_bytes());
+    h
+}
+
+const UPGRADE_TS: u64 = u64::from_be_bytes(*b"NTP5DRFT");
+
+/// v3/v4 header table; the first two are the ones used for the deep sequences.
+fn headers_v34(vn: u8) -> Vec<(String, [u8; 48])> {
+    vec![
+        ("client".into(), hdr_v34(vn, 0, 3, 0, 6, 0xE8, 0, 0, [0; 4], [0, 0, 0, 0x0123_4567_89AB_CDEF])),
+        (
+            "server-max".into(),
+            hdr_v34(vn, 3, 4, 255, 0x80, 0x7F, 0xFFFF_FFFF, 0x8000_0000, *b"RATE",
+                [UPGRADE_TS, u64::MAX, 0x8000_0000_0000_0000, 0x7FFF_FFFF_FFFF_FFFF]),
+        ),
+        ("mode0".into(), hdr_v34(vn, 1, 0, 1, 0x7F, 0x80, 1, 0x0001_0000, [127, 0, 0, 1], [1, 2, 3, 4])),
+        ("mode7".into(), hdr_v34(vn, 2, 7, 16, 0xFF, 0xFF, 0x7FFF_FFFF, 0xFFFF_0000, *b"DENY", [u64::MAX; 4])),
+        ("kiss-ntsn".into(), hdr_v34(vn, 3, 4, 0, 4, 0, 0, 0, *b"NTSN", [0, 0x0123_4567_89AB_CDEF, 0, 0])),
+        ("bcast".into(), hdr_v34(vn, 0, 5, 2, 10, 0xEC, 0x0000_0100, 0x0000_0200, *b"GPS\0", [5, 6, 7, 8])),
+    ]
+}
+
+/// v5 header table; the first `V5_VALID` ones are accepted by the header decoder.
+const V5_VALID: usize = 4;
+fn headers_v5() -> Vec<(String, [u8; 48])> {
+    vec![
+        ("request".into(), hdr_v5(0, 3, 0, 6, 0, 0, 0, 0, 0, [0, 0], 0, 0x0123_4567_89AB_CDEF, 0, 0)),
+        (
+            "response-max".into(),
+            hdr_v5(3, 4, 16, 0x7F, 0x80, 0xFFFF_FFFF, 0x8000_0000, 3, 255, [0, 7], u64::MAX, u64::MAX,
+                0x8000_0000_0000_0000, 0x7FFF_FFFF_FFFF_FFFF),
+        ),
+        ("sync-li3".into(), hdr_v5(3, 4, 1, 0x80, 0xFF, 1, 0x1000_0000, 1, 1, [0, 1], 1, 2, 3, 4)),
+        ("unsync-li1".into(), hdr_v5(1, 3, 2, 0xFF, 0x7F, 0x7FFF_FFFF, 0xFFFF_FFF0, 2, 128, [0, 6], 9, 8, 7, 6)),
+        ("bad-timescale".into(), hdr_v5(0, 3, 0, 6, 0, 0, 0, 4, 0, [0, 0], 0, 1, 0, 0)),
+        ("bad-flags-lo".into(), hdr_v5(0, 3, 0, 6, 0, 0, 0, 0, 0, [0, 8], 0, 1, 0, 0)),
+        ("bad-flags-hi".into(), hdr_v5(0, 3, 0, 6, 0, 0, 0, 0, 0, [1, 0], 0, 1, 0, 0)),
+        ("bad-mode0".into(), hdr_v5(0, 0, 0, 6, 0, 0, 0, 0, 0, [0, 0], 0, 1, 0, 0)),
+        ("bad-mode7".into(), hdr_v5(0, 7, 0, 6, 0, 0, 0, 0xFF, 0, [0xFF, 0xFF], 0, 1, 0, 0)),
+    ]
+}
+
+// ---------------------------------------------------------------------------------------
+// extension fields
+// ---------------------------------------------------------------------------------------
+
+pub(super) const T_UID: u16 = 0x0104;
+pub(super) const T_COOKIE: u16 = 0x0204;
+pub(super) const T_PLACEHOLDER: u16 = 0x0304;
+pub(super) const T_AUTH: u16 = 0x0404;
+pub(super) const T_DRAFT: u16 = 0xF5FF;
+pub(super) const T_PADDING: u16 = 0xF501;
+pub(super) const T_REFID_REQ: u16 = 0xF503;
+pub(super) const T_REFID_RESP: u16 = 0xF504;
+pub(super) const DRAFT: &str = "draft-ietf-ntp-ntpv5-09";
+
+#[derive(Clone, Debug)]
+pub(super) struct AuthSpec {
+    pub alg: Alg,
+    pub dir: Dir,
+    /// plaintext that gets encrypted (normally a sequence of framed fields)
+    pub plaintext: Vec<u8>,
+    /// `Some`: harness-chosen nonce (any length; padded to a word boundary inside the
+    /// field), sealed with the bare AES-SIV primitive - deterministic, used by C23/C24;
+    /// `None`: sealed by the crate's `Cipher::encrypt` (random 16-byte nonce) - used by C25
+    pub nonce: Option<Vec<u8>>,
+    /// value of the nonce / ciphertext padding bytes
+    pub pad_fill: u8,
+    /// extra bytes inside the field after the (padded) ciphertext
+    pub tail: Vec<u8>,
+}
+
+#[derive(Clone, Debug)]
+pub(super) enum FieldKind {
+    /// `ty`, declared `len`, and the bytes that physically follow the 4-byte field header
+    Raw { ty: u16, len: u16, body: Vec<u8> },
+    /// a *valid* NTS authenticator-and-encrypted-fields field over everything before it
+    Auth(AuthSpec),
+}
+
+#[derive(Clone, Debug)]
+pub(super) struct Field {
+    pub name: String,
+    pub kind: FieldKind,
+    /// long fields (> 200 bytes) are kept out of the swept multi-field sequences of the
+    /// quick tier, huge ones (> 2000 bytes) also out of those of the thorough tier
+    pub long: bool,
+    pub huge: bool,
+    /// member of the reduced alphabet used for the deepest swept sequences
+    pub core: bool,
+}
+
+impl Field {
+    pub(super) fn core(mut self) -> Field {
+        self.core = true;
+        self
+    }
+}
+
+/// deterministic non-zero filler bytes
+pub(super) fn filler(n: usize, seed: u8) -> Vec<u8> {
+    (0..n).map(|i| (seed.wrapping_add((i as u8).wrapping_mul(7))) | 1).collect()
+}
+
+pub(super) fn raw(name: &str, ty: u16, len: u16, body: Vec<u8>) -> Field {
+    let long = body.len() > 200;
+    let huge = body.len() > 2000;
+    Field { name: name.to_string(), kind: FieldKind::Raw { ty, len, body }, long, huge, core: false }
+}
+
+/// canonical framing: declared length = 4 + data.len(), data zero padded to a word
+pub(super) fn ef(name: &str, ty: u16, data: &[u8]) -> Field {
+    let mut body = data.to_vec();
+    while body.len() % 4 != 0 {
+        body.push(0);
+    }
+    raw(name, ty, (4 + data.len()) as u16, body)
+}
+
+/// 16-byte nonce derived from the field name (deterministic, different per field)
+fn default_nonce(name: &str) -> Vec<u8> {
+    let h = common::hash_of(&name);
+    [h.to_be_bytes(), (!h).rotate_left(17).to_be_bytes()].concat()
+}
+
+pub(super) fn auth(name: &str, alg: Alg, dir: Dir, plaintext: Vec<u8>) -> Field {
+    Field {
+        name: name.to_string(),
+        kind: FieldKind::Auth(AuthSpec { alg, dir, plaintext, nonce: Some(default_nonce(name)), pad_fill: 0, tail: vec![] }),
+        long: false,
+        huge: false,
+        core: false,
+    }
+}
+
+pub(super) fn auth_ext(name: &str, alg: Alg, dir: Dir, plaintext: Vec<u8>, nonce: Option<Vec<u8>>, pad_fill: u8, tail: Vec<u8>) -> Field {
+    Field {
+        name: name.to_string(),
+        kind: FieldKind::Auth(AuthSpec { alg, dir, plaintext, nonce: Some(nonce.unwrap_or_else(|| default_nonce(name))), pad_fill, tail }),
+        long: false,
+        huge: false,
+        core: false,
+    }
+}
+
+/// authenticator sealed by the crate's own `Cipher::encrypt` (random nonce)
+pub(super) fn auth_crate(name: &str, alg: Alg, dir: Dir, plaintext: Vec<u8>, tail: Vec<u8>) -> Field {
+    Field {
+        name: name.to_string(),
+        kind: FieldKind::Auth(AuthSpec { alg, dir, plaintext, nonce: None, pad_fill: 0, tail }),
+        long: false,
+        huge: false,
+        core: false,
+    }
+}
+
+/// wire bytes of a sequence of raw fields (used for the plaintext of authenticators)
+pub(super) fn encode_raw(fields: &[Field]) -> Vec<u8> {
+    let mut out = Vec::new();
+    for f in fields {
+        match &f.kind {
+            FieldKind::Raw { ty, len, body } => {
+                out.extend_from_slice(&ty.to_be_bytes());
+                out.extend_from_slice(&len.to_be_bytes());
+                out.extend_from_slice(body);
+            }
+            FieldKind::Auth(_) => panic!("harness: nested valid authenticator not expressible"),
+        }
+    }
+    out
+}
+
+#[derive(Clone, Copy, PartialEq, Eq, Debug, Hash)]
+pub(super) enum Region {
+    Header,
+    /// a field before the first valid authenticator
+    PreField,
+    /// type, length, nonce length, ciphertext length of the authenticator (8 bytes)
+    AuthLengths,
+    Nonce,
+    NoncePad,
+    Ciphertext,
+    /// ciphertext padding and extra bytes inside the authenticator field
+    AuthTail,
+    /// a field after the first valid authenticator (or any field if there is none)
+    PostField,
+    /// raw bytes after the last field
+    Tail,
+}
+
+pub(super) struct Built {
+    pub bytes: Vec<u8>,
+    /// region of every byte
+    pub region: Vec<Region>,
+    /// offsets of 16-bit big-endian length fields (field length, nonce/ciphertext length,
+    /// cookie ciphertext length)
+    pub len_offsets: Vec<usize>,
+}
+
+fn pad4(n: usize) -> usize {
+    (n + 3) & !3
+}
+
+pub(super) fn assemble(env: &Env, header: &[u8; 48], fields: &[&Field], tail: &[u8]) -> Built {
+    let mut bytes = header.to_vec();
+    let mut region = vec![Region::Header; 48];
+    let mut len_offsets = Vec::new();
+    let has_auth = fields.iter().any(|f| matches!(f.kind, FieldKind::Auth(_)));
+    let mut auth_seen = false;
+    for f in fields {
+        let off = bytes.len();
+        match &f.kind {
+            FieldKind::Raw { ty, len, body } => {
+                bytes.extend_from_slice(&ty.to_be_bytes());
+                bytes.extend_from_slice(&len.to_be_bytes());
+                bytes.extend_from_slice(body);
+                let r = if has_auth && !auth_seen { Region::PreField } else { Region::PostField };
+                region.resize(bytes.len(), r);
+                len_offsets.push(off + 2);
+                if *ty == T_AUTH && body.len() >= 4 {
+                    len_offsets.push(off + 4);
+                    len_offsets.push(off + 6);
+                }
+                if *ty == T_COOKIE && body.len() >= 6 {
+                    len_offsets.push(off + 8);
+                }
+            }
+            FieldKind::Auth(a) => {
+                let (nonce, ct) = match &a.nonce {
+                    None => crate_encrypt(env.cipher(a.alg, a.dir), &bytes, &a.plaintext),
+                    Some(n) => (n.clone(), siv_encrypt(a.alg, a.dir, n, &bytes, &a.plaintext)),
+                };
+                let np = pad4(nonce.len());
+                let cp = pad4(ct.len());
+                let total = 8 + np + cp + a.tail.len();
+                bytes.extend_from_slice(&T_AUTH.to_be_bytes());
+                bytes.extend_from_slice(&(total as u16).to_be_bytes());
+                bytes.extend_from_slice(&(nonce.len() as u16).to_be_bytes());
+                bytes.extend_from_slice(&(ct.len() as u16).to_be_bytes());
+                let first = !auth_seen;
+                let tag = |r: Region| if first { r } else { Region::PostField };
+                region.resize(bytes.len(), tag(Region::AuthLengths));
+                bytes.extend_from_slice(&nonce);
+                region.resize(bytes.len(), tag(Region::Nonce));
+                bytes.resize(off + 8 + np, a.pad_fill);
+                region.resize(bytes.len(), tag(Region::NoncePad));
+                bytes.extend_from_slice(&ct);
+                region.resize(bytes.len(), tag(Region::Ciphertext));
+                bytes.resize(off + 8 + np + cp, a.pad_fill);
+                bytes.extend_from_slice(&a.tail);
+                region.resize(bytes.len(), tag(Region::AuthTail));
+                len_offsets.push(off + 2);
+                len_offsets.push(off + 4);
+                len_offsets.push(off + 6);
+                auth_seen = true;
+            }
+        }
+    }
+    bytes.extend_from_slice(tail);
+    region.resize(bytes.len(), Region::Tail);
+    Built { bytes, region, len_offsets }
+}
+
+// ---------------------------------------------------------------------------------------
+// mutation sweep
+// ---------------------------------------------------------------------------------------
+
+#[derive(Clone, Copy, Debug, PartialEq, Eq)]
+pub(super) enum Pat {
+    Set(u8),
+    Xor(u8),
+    Add(u8),
+}
+
+impl Pat {
+    fn apply(self, b: u8) -> u8 {
+        match self {
+            Pat::Set(v) => v,
+            Pat::Xor(v) => b ^ v,
+            Pat::Add(v) => b.wrapping_add(v),
+        }
+    }
+}
+
+pub(super) fn patterns(quick: bool) -> Vec<Pat> {
+    if quick {
+        vec![Pat::Set(0x00), Pat::Set(0xFF), Pat::Xor(0x80), Pat::Xor(0x01)]
+    } else {
+        vec![
+            Pat::Set(0x00), Pat::Set(0xFF), Pat::Xor(0x80), Pat::Xor(0x01), Pat::Xor(0x04), Pat::Add(1),
+            Pat::Set(0x04), Pat::Set(0x10),
+        ]
+    }
+}
+
+#[derive(Clone, Copy, Debug, PartialEq, Eq)]
+pub(super) enum Mutation {
+    None,
+    /// keep the first k bytes
+    Trunc(usize),
+    /// byte at offset := value
+    Sub(usize, u8),
+    /// 16-bit length field at offset += delta (wrapping)
+    Len(usize, i16),
+}
+
+/// The base, every truncation, every single-byte substitution (each pattern, each offset,
+/// a pattern that leaves the byte unchanged is skipped) and +-1/+-4 on
+/// every length field. `f` sees the mutated datagram; no allocation per mutant.
+pub(super) fn sweep(b: &Built, pats: &[Pat], mut f: impl FnMut(&[u8], Mutation)) {
+    let mut work = b.bytes.clone();
+    let n = work.len();
+    f(&work, Mutation::None);
+    for k in 0..n {
+        f(&work[..k], Mutation::Trunc(k));
+    }
+    for i in 0..n {
+        let orig = work[i];
+        for p in pats {
+            let v = p.apply(orig);
+            if v == orig {
+                continue;
+            }
+            work[i] = v;
+            f(&work, Mutation::Sub(i, v));
+        }
+        work[i] = orig;
+    }
+    for &o in &b.len_offsets {
+        if o + 1 >= n {
+            continue;
+        }
+        let orig = u16::from_be_bytes([work[o], work[o + 1]]);
+        for d in [-4i16, -1, 1, 4] {
+            let v = orig.wrapping_add(d as u16);
+            work[o..o + 2].copy_from_slice(&v.to_be_bytes());
+            f(&work, Mutation::Len(o, d));
+        }
+        work[o..o + 2].copy_from_slice(&orig.to_be_bytes());
+    }
+}
+
+// ---------------------------------------------------------------------------------------
+// alphabets
+// ---------------------------------------------------------------------------------------
+
+fn bad_auth_fields(v5: bool) -> Vec<Field> {
+    let mut v = vec![
+        // no room for the nonce / ciphertext length words
+        raw("ax-len4", T_AUTH, 4, vec![]),
+        // nonce length larger than the body
+        raw("ax-nonce-big", T_AUTH, 24, [&[0, 64, 0, 0][..], &filler(16, 3)].concat()),
+        // ciphertext length larger than the body
+        raw("ax-ct-big", T_AUTH, 40, [&[0, 16, 0, 64][..], &filler(32, 5)].concat()),
+        raw("ax-ffff", T_AUTH, 12, vec![0xFF, 0xFF, 0xFF, 0xFF, 1, 2, 3, 4]),
+        raw("ax-nonce-fffd", T_AUTH, 12, vec![0xFF, 0xFD, 0, 0, 1, 2, 3, 4]),
+        raw("ax-zero", T_AUTH, 8, vec![0, 0, 0, 0]),
+        // well formed but not produced with any of our keys
+        raw("ax-garbage", T_AUTH, 40, [&[0, 16, 0, 16][..], &filler(32, 9)].concat()).core(),
+    ];
+    if v5 {
+        v.push(raw("ax-len6", T_AUTH, 6, vec![0, 16, 0, 0]));
+        v.push(raw("ax-len9", T_AUTH, 9, vec![0, 1, 0, 0, 7, 0, 0, 0]));
+    }
+    v
+}
+
+fn valid_auth_fields(env: &Env, v5: bool) -> Vec<Field> {
+    let ck = |alg: Alg| ef("ck", T_COOKIE, &env.cookies[alg.idx()]);
+    let mut v = vec![
+        auth("au-c2s256", Alg::A256, Dir::C2S, vec![]).core(),
+        auth("au-c2s512", Alg::A512, Dir::C2S, vec![]),
+        auth("au-s2c256-ck", Alg::A256, Dir::S2C, encode_raw(&[ck(Alg::A256)])).core(),
+        auth("au-s2c512-2ck", Alg::A512, Dir::S2C, encode_raw(&[ck(Alg::A512), ck(Alg::A512)])),
+        // decrypts, but the plaintext contains another encrypted field
+        auth("au-s2c256-nested", Alg::A256, Dir::S2C, encode_raw(&[raw("n", T_AUTH, 8, vec![0, 0, 0, 0])])),
+        // decrypts, but the plaintext is badly framed / holds an invalid placeholder
+        auth("au-s2c256-badinner", Alg::A256, Dir::S2C, vec![0x01, 0x04, 0x00, 0x03]),
+        auth("au-s2c256-inner-phnz", Alg::A256, Dir::S2C, encode_raw(&[raw("p", T_PLACEHOLDER, 8, vec![0, 0, 1, 0])])),
+        auth("au-s2c256-stub", Alg::A256, Dir::S2C, vec![0x01, 0x04]),
+        // extra bytes inside the field after the ciphertext; nonce needing padding
+        auth_ext("au-c2s256-tail4", Alg::A256, Dir::C2S, vec![], None, 0, vec![0xAA, 0xBB, 0xCC, 0xDD]),
+        auth_ext("au-s2c256-n13", Alg::A256, Dir::S2C, encode_raw(&[ef("u", T_UID, &filler(8, 1))]), Some(filler(13, 0x21)), 0x5A, vec![]),
+    ];
+    if v5 {
+        v.push(auth("au-s2c256-did", Alg::A256, Dir::S2C, encode_raw(&[ef("d", T_DRAFT, DRAFT.as_bytes())])));
+        v.push(auth("au-s2c256-rq6", Alg::A256, Dir::S2C, encode_raw(&[ef("r", T_REFID_REQ, &[0, 1])])));
+    }
+    v
+}
+
+pub(super) fn alphabet_v4(env: &Env) -> Vec<Field> {
+    let mut v = vec![
+        ef("uid32", T_UID, &filler(32, 0x41)).core(),
+        raw("uid0", T_UID, 4, vec![]),
+        ef("uid12", T_UID, &filler(12, 0x43)),
+        ef("uid24", T_UID, &filler(24, 0x45)),
+        ef("ck256", T_COOKIE, &env.cookies[0]).core(),
+        ef("ck512", T_COOKIE, &env.cookies[1]),
+        ef("ck20", T_COOKIE, &filler(20, 0x51)),
+        // right key id (KeySet::new has id_offset 1), ciphertext length 2, garbage
+        ef("ck-id-ok", T_COOKIE, &[&[0, 0, 0, 1, 0, 2][..], &filler(18, 0x53)].concat()),
+        // live key id, but shorter than id + length + nonce
+        ef("ck-id-ok-short", T_COOKIE, &[0, 0, 0, 1, 0, 2, 7, 7]),
+        ef("ck-ctlen-big", T_COOKIE, &[&[0, 0, 0, 1, 0xFF, 0xFF][..], &filler(18, 0x55)].concat()),
+        ef("ck-badid", T_COOKIE, &[&[0, 0, 0, 0, 0, 2][..], &filler(18, 0x57)].concat()),
+        ef("ph16", T_PLACEHOLDER, &[0; 16]).core(),
+        ef("ph104", T_PLACEHOLDER, &[0; 104]),
+        ef("ph-nz", T_PLACEHOLDER, &[0, 0, 0, 0, 0, 0, 0, 9, 0, 0, 0, 0]),
+        raw("ph0", T_PLACEHOLDER, 4, vec![]),
+        // NTPv5-only types: plain unknown fields in an NTPv4 packet
+        ef("did", T_DRAFT, &[DRAFT.as_bytes(), &[0]].concat()),
+        raw("pad4", T_PADDING, 4, vec![]),
+        ef("rq8", T_REFID_REQ, &[0, 4, 0, 0]),
+        ef("rs8", T_REFID_RESP, &filler(4, 0x61)),
+        raw("u0000-4", 0x0000, 4, vec![]).core(),
+        ef("uffff-16", 0xFFFF, &filler(12, 0x71)),
+        ef("u24", 0xBEEF, &filler(20, 0x73)).core(),
+        ef("u28", 0x0002, &filler(24, 0x75)),
+        ef("u1000", 0x2222, &filler(996, 0x77)),
+        ef("u4000", 0x3333, &filler(3996, 0x79)),
+        // framing errors
+        raw("l0", 0x0007, 0, vec![0, 0, 0, 0]),
+        raw("l3", 0x0007, 3, vec![1, 2, 3, 4]),
+        raw("l5", 0x0007, 5, vec![1, 2, 3, 4]),
+        raw("l6", T_UID, 6, vec![1, 2, 3, 4]),
+        raw("l7", T_COOKIE, 7, vec![1, 2, 3, 4]).core(),
+        // declared length runs past the physical bytes (into whatever follows, if anything)
+        raw("l-over", 0x0007, 0x0040, vec![1, 2, 3, 4]).core(),
+        raw("lffff", 0x0007, 0xFFFF, vec![1, 2, 3, 4]),
+        raw("lfffc", 0x0007, 0xFFFC, vec![1, 2, 3, 4]),
+    ];
+    v.extend(valid_auth_fields(env, false));
+    v.extend(bad_auth_fields(false));
+    v
+}
+
+pub(super) fn draft_field() -> Field {
+    ef("did", T_DRAFT, DRAFT.as_bytes())
+}
+
+pub(super) fn alphabet_v5(env: &Env) -> Vec<Field> {
+    let mut v = vec![
+        draft_field().core(),
+        ef("did-nul", T_DRAFT, &[DRAFT.as_bytes(), &[0]].concat()),
+        ef("did-midnul", T_DRAFT, b"draft\0ietf"),
+        ef("did-wrong", T_DRAFT, b"draft-ietf-ntp-ntpv5-08"),
+        ef("did-hi", T_DRAFT, &[b'd', b'r', 0x80, b'f']),
+        raw("did-empty", T_DRAFT, 4, vec![]),
+        // correct id, but the padding byte the length calls for is not physically there
+        raw("did-nopad", T_DRAFT, 27, DRAFT.as_bytes().to_vec()),
+        ef("uid32", T_UID, &filler(32, 0x41)).core(),
+        ef("uid1", T_UID, &[0x42]),
+        raw("uid0", T_UID, 4, vec![]),
+        ef("ck256", T_COOKIE, &env.cookies[0]).core(),
+        ef("ck512", T_COOKIE, &env.cookies[1]),
+        ef("ck21", T_COOKIE, &filler(21, 0x51)),
+        ef("ck-id-ok", T_COOKIE, &[&[0, 0, 0, 1, 0, 2][..], &filler(17, 0x53)].concat()),
+        ef("ck-id-ok-short", T_COOKIE, &[0, 0, 0, 1, 0, 2, 7]),
+        ef("ph16", T_PLACEHOLDER, &[0; 16]).core(),
+        ef("ph7", T_PLACEHOLDER, &[0; 7]),
+        ef("ph-nz", T_PLACEHOLDER, &[0, 0, 0, 0, 0, 0, 0, 9]),
+        // zero body, non-zero padding byte (padding is not part of the value)
+        raw("ph-padnz", T_PLACEHOLDER, 7, vec![0, 0, 0, 0xEE]),
+        raw("pad4", T_PADDING, 4, vec![]),
+        ef("pad8", T_PADDING, &[0; 4]),
+        ef("pad-nz", T_PADDING, &[1, 2, 3]),
+        // reference-id request: body 0 and 1 are too short; 2, 3, 5 are not word multiples
+        raw("rq4", T_REFID_REQ, 4, vec![]),
+        ef("rq5", T_REFID_REQ, &[7]),
+        ef("rq6", T_REFID_REQ, &[0, 1]).core(),
+        ef("rq7", T_REFID_REQ, &[0, 1, 0]),
+        ef("rq8", T_REFID_REQ, &[0, 4, 0, 0]).core(),
+        ef("rq9", T_REFID_REQ, &[0, 4, 0, 0, 0]),
+        ef("rq12-nz", T_REFID_REQ, &[1, 0xFC, 9, 9, 9, 9, 9, 9]),
+        ef("rq-off-ffff", T_REFID_REQ, &[0xFF, 0xFF, 0, 0]),
+        ef("rq516", T_REFID_REQ, &[0; 512]),
+        raw("rs4", T_REFID_RESP, 4, vec![]),
+        ef("rs5", T_REFID_RESP, &[0x61]),
+        ef("rs6", T_REFID_RESP, &[0x61, 0x62]),
+        ef("rs7", T_REFID_RESP, &[0x61, 0x62, 0x63]).core(),
+        ef("rs8", T_REFID_RESP, &filler(4, 0x61)),
+        ef("rs516", T_REFID_RESP, &filler(512, 0x63)),
+        raw("u0000-4", 0x0000, 4, vec![]),
+        ef("uffff-7", 0xFFFF, &[1, 2, 3]).core(),
+        ef("ubeef-16", 0xBEEF, &filler(12, 0x73)),
+        ef("u1000", 0x2222, &filler(995, 0x77)),
+        ef("u4000", 0x3333, &filler(3990, 0x79)),
+        raw("l0", 0x0007, 0, vec![0, 0, 0, 0]),
+        raw("l3", 0x0007, 3, vec![1, 2, 3, 4]),
+        raw("l5-nopad", 0x0007, 5, vec![1]),
+        raw("l-over", 0x0007, 0x0040, vec![1, 2, 3, 4]).core(),
+        raw("lffff", 0x0007, 0xFFFF, vec![1, 2, 3, 4]),
+    ];
+    v.extend(valid_auth_fields(env, true));
+    v.extend(bad_auth_fields(true));
+    v
+}
+
+pub(super) fn mac_tails() -> Vec<Vec<u8>> {
+    let mac = |n: usize| -> Vec<u8> { [&[0, 0, 0, 1][..], &filler(n.saturating_sub(4), 0xA1)].concat()[..n].to_vec() };
+    vec![vec![], mac(4), mac(20), mac(24), mac(3), mac(16), mac(25), mac(28)]
+}
+
+// ---------------------------------------------------------------------------------------
+// the plan: staged, indexable enumeration of base datagrams
+// ---------------------------------------------------------------------------------------
+
+pub(super) struct Corpus {
+    pub name: &'static str,
+    pub headers: Vec<(String, [u8; 48])>,
+    pub alphabet: Vec<Field>,
+    pub tails: Vec<Vec<u8>>,
+    /// mandatory first field of a block with `lead` (v5: the draft identification)
+    pub lead: Option<Field>,
+}
+
+/// One cartesian block: headers x lead? x alphabet^len x tails.
+pub(super) struct Block {
+    pub corpus: usize,
+    pub hdrs: Vec<usize>,
+    pub alpha: Vec<usize>,
+    pub len: usize,
+    pub tails: Vec<usize>,
+    pub lead: bool,
+    pub swept: bool,
+}
+
+impl Block {
+    fn size(&self) -> u64 {
+        self.hdrs.len() as u64 * (self.alpha.len() as u64).pow(self.len as u32) * self.tails.len() as u64
+    }
+}
+
+pub(super) struct Stage {
+    pub label: String,
+    pub blocks: Vec<Block>,
+}
+
+pub(super) struct Plan {
+    pub corpora: Vec<Corpus>,
+    pub stages: Vec<Stage>,
+}
+
+pub(super) struct Case {
+    pub built: Built,
+    pub swept: bool,
+    pub desc: String,
+}
+
+impl Plan {
+    pub(super) fn stage_total(&self, s: usize) -> u64 {
+        self.stages[s].blocks.iter().map(Block::size).sum()
+    }
+
+    /// the `i`-th base datagram of stage `s`
+    pub(super) fn build(&self, env: &Env, s: usize, mut i: u64) -> Case {
+        for b in &self.stages[s].blocks {
+            let n = b.size();
+            if i >= n {
+                i -= n;
+                continue;
+            }
+            let c = &self.corpora[b.corpus];
+            let t = b.tails[(i % b.tails.len() as u64) as usize];
+            i /= b.tails.len() as u64;
+            let mut fields: Vec<&Field> = Vec::with_capacity(b.len + 1);
+            let mut idx = vec![0usize; b.len];
+            for k in (0..b.len).rev() {
+                idx[k] = b.alpha[(i % b.alpha.len() as u64) as usize];
+                i /= b.alpha.len() as u64;
+            }
+            let h = b.hdrs[i as usize];
+            if b.lead {
+                fields.push(c.lead.as_ref().expect("lead"));
+            }
+            for k in idx {
+                fields.push(&c.alphabet[k]);
+            }
+            let built = assemble(env, &c.headers[h].1, &fields, &c.tails[t]);
+            let desc = format!(
+                "{}/{}/[{}]/tail{}",
+                c.name,
+                c.headers[h].0,
+                fields.iter().map(|f| f.name.as_str()).collect::<Vec<_>>().join(","),
+                c.tails[t].len()
+            );
+            return Case { built, swept: b.swept, desc };
+        }
+        panic!("harness: base index out of range");
+    }
+
+    pub(super) fn new(quick: bool, env: &Env) -> Plan {
+        let v4 = alphabet_v4(env);
+        let v5 = alphabet_v5(env);
+        let all = |a: &Vec<Field>| (0..a.len()).collect::<Vec<_>>();
+        let short = |a: &Vec<Field>| (0..a.len()).filter(|&i| !a[i].long).collect::<Vec<_>>();
+        let long = |a: &Vec<Field>| (0..a.len()).filter(|&i| a[i].long).collect::<Vec<_>>();
+        let core = |a: &Vec<Field>| (0..a.len()).filter(|&i| a[i].core).collect::<Vec<_>>();
+        let nothuge = |a: &Vec<Field>| (0..a.len()).filter(|&i| !a[i].huge).collect::<Vec<_>>();
+        let (v4pair, v5pair) = if quick { (short(&v4), short(&v5)) } else { (nothuge(&v4), nothuge(&v5)) };
+        let (v4all, v4short, v4long, v4core) = (all(&v4), short(&v4), long(&v4), core(&v4));
+        let (v5all, v5short, v5long, v5core) = (all(&v5), short(&v5), long(&v5), core(&v5));
+        let h34 = headers_v34(4);
+        let corpora = vec![
+            // 0: NTPv3 – header + MAC only
+            Corpus {
+                name: "v3",
+                headers: headers_v34(3),
+                alphabet: vec![ef("x-uid32", T_UID, &filler(32, 0x41)), ef("x-u1000", 0x2222, &filler(996, 0x77)), ef("x-u4044", 0x3333, &filler(4040, 0x79))],
+                tails: mac_tails(),
+                lead: None,
+            },
+            // 1: NTPv4
+            Corpus { name: "v4", headers: h34, alphabet: v4, tails: mac_tails(), lead: None },
+            // 2: NTPv5 (no MAC in v5: a tail is stray bytes)
+            Corpus {
+                name: "v5",
+                headers: headers_v5(),
+                alphabet: v5,
+                tails: vec![vec![], vec![0, 0, 0, 1], vec![0xF5]],
+                lead: Some(draft_field()),
+            },
+            // 3: versions 0,1,2,6,7
+            Corpus {
+                name: "vx",
+                headers: [0u8, 1, 2, 6, 7].iter().map(|&vn| (format!("vn{vn}"), hdr_v34(vn, 0, 3, 1, 6, 0, 0, 0, [0; 4], [0, 0, 0, 1]))).collect(),
+                alphabet: vec![ef("x-uid32", T_UID, &filler(32, 0x41))],
+                tails: vec![vec![], vec![0, 0, 0, 1]],
+                lead: None,
+            },
+        ];
+        let nh = |c: usize| (0..corpora[c].headers.len()).collect::<Vec<_>>();
+        let nt = |c: usize| (0..corpora[c].tails.len()).collect::<Vec<_>>();
+        let mut s0 = vec![
+            // v3 and the unknown versions: every header x <=1 field x every tail, swept
+            Block { corpus: 0, hdrs: nh(0), alpha: vec![], len: 0, tails: nt(0), lead: false, swept: true },
+            Block { corpus: 0, hdrs: vec![0], alpha: vec![0, 1, 2], len: 1, tails: vec![0, 1], lead: false, swept: true },
+            Block { corpus: 3, hdrs: nh(3), alpha: vec![], len: 0, tails: nt(3), lead: false, swept: true },
+            Block { corpus: 3, hdrs: nh(3), alpha: vec![0], len: 1, tails: vec![0], lead: false, swept: true },
+            // v4: every header x <=1 short field x every tail, swept
+            Block { corpus: 1, hdrs: nh(1), alpha: vec![], len: 0, tails: nt(1), lead: false, swept: true },
+            Block { corpus: 1, hdrs: nh(1), alpha: v4short.clone(), len: 1, tails: nt(1), lead: false, swept: true },
+            // v4 long fields (up to 4096 bytes in total): 1 header x 2 tails, swept
+            Block { corpus: 1, hdrs: vec![0], alpha: v4long.clone(), len: 1, tails: vec![0, 3], lead: false, swept: true },
+            // v5: every header x <=1 short field x every tail, without and with leading draft id
+            Block { corpus: 2, hdrs: nh(2), alpha: vec![], len: 0, tails: nt(2), lead: false, swept: true },
+            Block { corpus: 2, hdrs: nh(2), alpha: v5short.clone(), len: 1, tails: nt(2), lead: false, swept: true },
+            Block { corpus: 2, hdrs: (0..V5_VALID).collect(), alpha: vec![], len: 0, tails: nt(2), lead: true, swept: true },
+            Block { corpus: 2, hdrs: (0..V5_VALID).collect(), alpha: v5short.clone(), len: 1, tails: nt(2), lead: true, swept: true },
+            Block { corpus: 2, hdrs: vec![0], alpha: v5long.clone(), len: 1, tails: vec![0], lead: true, swept: true },
+        ];
+        // pairs, swept
+        let (h4, t4, h5, t5): (Vec<usize>, Vec<usize>, Vec<usize>, Vec<usize>) = if quick {
+            (vec![0, 1], vec![0, 3], vec![0, 1], vec![0])
+        } else {
+            (vec![0, 1, 2], vec![0, 1, 2, 3, 4], vec![0, 1], vec![0, 2])
+        };
+        let s1 = vec![
+            Block { corpus: 1, hdrs: h4.clone(), alpha: v4pair.clone(), len: 2, tails: t4.clone(), lead: false, swept: true },
+            Block { corpus: 2, hdrs: h5.clone(), alpha: v5pair.clone(), len: 2, tails: t5.clone(), lead: false, swept: true },
+            Block { corpus: 2, hdrs: h5.clone(), alpha: v5pair.clone(), len: 2, tails: t5.clone(), lead: true, swept: true },
+        ];
+        // triples over the full alphabets, base datagrams only (no mutation)
+        let s2 = vec![
+            Block { corpus: 1, hdrs: vec![0], alpha: v4all.clone(), len: 3, tails: vec![0, 2], lead: false, swept: false },
+            Block { corpus: 2, hdrs: vec![0], alpha: v5all.clone(), len: 3, tails: vec![0], lead: false, swept: false },
+            Block { corpus: 2, hdrs: vec![1], alpha: v5all.clone(), len: 3, tails: vec![0], lead: true, swept: false },
+        ];
+        // cheap stages first: the budget test between stages can then only ever skip the
+        // thorough-only last stage
+        let mut stages = vec![
+            Stage { label: "<=1 field, all headers, all tails, swept".into(), blocks: std::mem::take(&mut s0) },
+            Stage { label: "3 fields over the full alphabets, unmutated".into(), blocks: s2 },
+            Stage { label: "2 fields, swept".into(), blocks: s1 },
+        ];
+        if !quick {
+            // triples over the reduced (core) alphabets, swept
+            stages.push(Stage {
+                label: "3 fields over the core alphabets, swept".into(),
+                blocks: vec![
+                    Block { corpus: 1, hdrs: vec![0, 1], alpha: v4core.clone(), len: 3, tails: vec![0, 2, 3], lead: false, swept: true },
+                    Block { corpus: 2, hdrs: vec![0, 1], alpha: v5core.clone(), len: 3, tails: vec![0], lead: false, swept: true },
+                    Block { corpus: 2, hdrs: vec![0, 1], alpha: v5core.clone(), len: 3, tails: vec![0], lead: true, swept: true },
+                ],
+            });
+        }
+        Plan { corpora, stages }
+    }
+
+    pub(super) fn describe(&self) -> String {
+        let c = &self.corpora;
+        format!(
+            "alphabets: v4 {} fields ({} long, {} core), v5 {} fields ({} long, {} core); headers v3/v4 {} , v5 {} ({} valid), other versions {}; tails v3/v4 {:?} bytes, v5 {:?} bytes",
+            c[1].alphabet.len(),
+            c[1].alphabet.iter().filter(|f| f.long).count(),
+            c[1].alphabet.iter().filter(|f| f.core).count(),
+            c[2].alphabet.len(),
+            c[2].alphabet.iter().filter(|f| f.long).count(),
+            c[2].alphabet.iter().filter(|f| f.core).count(),
+            c[1].headers.len(),
+            c[2].headers.len(),
+            V5_VALID,
+            c[3].headers.len(),
+            c[1].tails.iter().map(Vec::len).collect::<Vec<_>>(),
+            c[2].tails.iter().map(Vec::len).collect::<Vec<_>>(),
+        )
+    }
+}
+
+pub(super) const RULE_GRAMMAR: &str = "base datagram = 48-byte header (v3/v4: 6 boundary-value headers; v5: 4 valid + 5 invalid \
+     headers; versions 0,1,2,6,7) + a sequence of hand-framed extension fields over the per-version alphabet (UID, cookie valid/garbage, \
+     placeholder, valid authenticators (AES-SIV, harness nonces) for both AEADs and directions incl. nested/badly-framed plaintext, \
+     in-field tail bytes, 13-byte nonce; malformed authenticators; v5 draft id incl. NUL/non-ASCII/missing padding; padding; \
+     reference-id request/response with lengths 4..516 incl. non-multiples of 4; unknown types up to 4000 bytes; declared lengths \
+     0,3,5,6,7,over-long,0xFFFF) + raw tail of 0/3/4/16/20/24/25/28 bytes (v5: 0/4/1 stray bytes). Stage 0: <=1 field x all headers x \
+     all tails; stage 2: all ordered pairs (quick: fields <=200 bytes, 2 headers, tails 0/24; thorough: fields <=2000 bytes, 3 v4 / 2 v5 headers, tails 0/4/20/24/3, v5 0/1); both swept = base + every \
+     truncation + every offset x byte patterns (quick: =00,=FF,^80,^01; thorough adds ^04,+1,=04,=10) + (+-1,+-4) on every 16-bit \
+     length field. Stage 1: all ordered triples over the full alphabets, unmutated. Thorough stage 3: all triples over the core \
+     alphabets, swept. v5 blocks are run without and with a leading valid draft-id field.";
+
+// ---------------------------------------------------------------------------------------
+// violation collector: counts every occurrence, keeps the 3 shortest traces per class
+// ---------------------------------------------------------------------------------------
+
+pub(super) struct Findings {
+    inner: std::sync::Mutex<BTreeMap<String, (u64, Vec<(usize, String, String)>)>>,
+}
+
+impl Findings {
+    pub(super) fn new() -> Findings {
+        Findings { inner: std::sync::Mutex::new(BTreeMap::new()) }
+    }
+
+    pub(super) fn report(&self, class: &str, what: String, trace: String) {
+        let mut g = self.inner.lock().unwrap();
+        let e = g.entry(class.to_string()).or_insert((0, Vec::new()));
+        e.0 += 1;
+        let key = trace.len();
+        if e.1.len() < 3 || key < e.1.last().map(|x| x.0).unwrap_or(0) {
+            if !e.1.iter().any(|x| x.2 == trace) {
+                let pos = e.1.iter().position(|x| x.0 > key).unwrap_or(e.1.len());
+                e.1.insert(pos, (key, what, trace));
+                e.1.truncate(3);
+            }
+        }
+    }
+
+    /// hand everything to the context: the shortest traces first (those are the ones kept)
+    pub(super) fn flush(&self, ctx: &Ctx) {
+        let g = self.inner.lock().unwrap();
+        for (class, (count, best)) in g.iter() {
+            for (_, what, trace) in best {
+                ctx.violation(class, what.clone(), trace.clone());
+            }
+            for _ in best.len() as u64..*count {
+                ctx.violation(class, "", "");
+            }
+        }
+    }
+}
+
+// ---------------------------------------------------------------------------------------
+// C23 proper
+// ---------------------------------------------------------------------------------------
+
+const CTX_NAMES: [&str; 4] = ["nocipher", "client-s2c256", "client-s2c512", "server-keyset"];
+
+fn key_ctx<'a>(env: &'a Env, i: usize) -> KeyCtx<'a> {
+    match i {
+        0 => KeyCtx::None,
+        1 => KeyCtx::Client(env.cipher(Alg::A256, Dir::S2C)),
+        2 => KeyCtx::Client(env.cipher(Alg::A512, Dir::S2C)),
+        _ => KeyCtx::Server(&env.keyset),
+    }
+}
+
+struct Local<'a> {
+    ctx: &'a Ctx,
+    counts: [[u64; OUTCOMES.len()]; 4],
+    evals: u64,
+    bases: u64,
+    swept_bases: u64,
+    max_len: u64,
+    distinct: HashSet<u64>,
+}
+
+impl Drop for Local<'_> {
+    fn drop(&mut self) {
+        for (ci, row) in self.counts.iter().enumerate() {
+            for (oi, n) in row.iter().enumerate() {
+                if *n > 0 {
+                    self.ctx.add(&format!("outcome.{}.{}", CTX_NAMES[ci], OUTCOMES[oi]), *n);
+                }
+            }
+        }
+        self.ctx.add("evaluations", self.evals);
+        self.ctx.add("transitions", self.evals);
+        self.ctx.add("base_datagrams", self.bases);
+        self.ctx.add("base_datagrams_swept", self.swept_bases);
+        self.ctx.max("max_datagram_len", self.max_len);
+        self.ctx.distinct_many(self.distinct.drain());
+    }
+}
+
+fn panic_class(prefix: &str, msg: &str) -> String {
+    // "<message> @ <file>:<line>"  ->  "<prefix>:<file stem>"
+    let file = msg.rsplit(" @ ").next().unwrap_or("");
+    let file = file.rsplit('/').next().unwrap_or("");
+    let stem = file.split('.').next().unwrap_or("");
+    if stem.is_empty() { prefix.to_string() } else { format!("{prefix}:{stem}") }
+}
+
+fn run_case(found: &Findings, env: &Env, st: &mut Local<'_>, stage: usize, index: u64, case: &Case, pats: &[Pat], contexts: &[usize]) {
+    st.bases += 1;
+    st.max_len = st.max_len.max(case.built.bytes.len() as u64);
+    let base_key = (stage as u64) << 48 | index;
+    let mut body = |bytes: &[u8], _m: Mutation| {
+        let mut vector = [0u8; 4];
+        for &ci in contexts {
+            let k = key_ctx(env, ci);
+            match common::catch(|| outcome_class(&k.decode(bytes))) {
+                Ok(o) => {
+                    st.counts[ci][o] += 1;
+                    vector[ci] = o as u8 + 1;
+                }
+                Err(e) => found.report(
+                    &panic_class("C23:decode-panic", &e),
+                    format!("NtpPacket::deserialize panicked ({e}) in context {} on a mutant of {}", CTX_NAMES[ci], case.desc),
+                    format!("{};{}", CTX_NAMES[ci], common::hex(bytes)),
+                ),
+            }
+            st.evals += 1;
+        }
+        if bytes.len() >= 48 {
+            st.distinct.insert(common::hash_of(&(base_key, vector)));
+        }
+    };
+    if case.swept {
+        st.swept_bases += 1;
+        sweep(&case.built, pats, &mut body);
+    } else {
+        body(&case.built.bytes, Mutation::None);
+    }
+}
+
+fn replay(ctx: &Ctx, env: &Env, trace: &str) -> String {
+    // trace: "<context name>;<hex datagram>"
+    let (cname, hex) = trace.split_once(';').unwrap_or(("nocipher", trace));
+    let ci = CTX_NAMES.iter().position(|n| *n == cname).unwrap_or(0);
+    let Some(bytes) = common::unhex(hex) else {
+        return "unparsable trace".into();
+    };
+    match common::catch(|| outcome_class(&key_ctx(env, ci).decode(&bytes))) {
+        Ok(o) => format!("context={} len={} outcome={}", CTX_NAMES[ci], bytes.len(), OUTCOMES[o]),
+        Err(e) => {
+            ctx.violation(&panic_class("C23:decode-panic", &e), format!("deserialize panicked: {e}"), trace);
+            format!("context={} len={} PANIC {e}", CTX_NAMES[ci], bytes.len())
+        }
+    }
+}
+
+#[test]
+fn check() {
+    let ctx = Ctx::new("C23");
+    let env = Env::new();
+    if let Some(t) = common::replay_trace() {
+        let a = replay(&ctx, &env, &t);
+        let b = replay(&ctx, &env, &t);
+        common::report_replay("C23", &a, &b, ctx.violation_count() > 0);
+        return;
+    }
+    let plan = Plan::new(ctx.quick(), &env);
+    let pats = patterns(ctx.quick());
+    // the three contexts of the statement; the client one with each of the two AEADs
+    let contexts: Vec<usize> = vec![0, 1, 2, 3];
+    ctx.rule(&format!(
+        "{RULE_GRAMMAR} Every datagram is decoded in each key context (NoCipher, client Option<&dyn Cipher> with the s2c key, \
+         server KeySet). distinct & non-trivial = distinct (base datagram, vector of decode outcome classes over the key contexts) pairs reached \
+         by the base or one of its mutants of >= 48 bytes. [{}]",
+        plan.describe()
+    ));
+    ctx.assume("release profile as shipped (debug assertions off): debug_assert!s in the decoder are not evaluated");
+    ctx.assume("byte strings outside the grammar + its single-mutation neighbourhood are not covered (bounded exhaustive claim)");
+    ctx.assume("termination is observed as: every planned decode call returned and was counted");
+    ctx.set("harness_self_test_failures", env.self_test.len() as u64);
+    if !env.self_test.is_empty() {
+        ctx.note("harness_self_test", &env.self_test.join("; "));
+    }
+    ctx.note("contexts", &contexts.iter().map(|c| CTX_NAMES[*c]).collect::<Vec<_>>().join(","));
+    let found = Findings::new();
+    let mut completed = 0;
+    for s in 0..plan.stages.len() {
+        if s > 0 && ctx.over_budget() {
+            ctx.cap_hit(&format!("stage {s} ({}) not started; stages < {s} complete", plan.stages[s].label));
+            break;
+        }
+        let total = plan.stage_total(s);
+        ctx.add(&format!("stage{s}_bases"), total);
+        let chunk = if plan.stages[s].blocks.iter().any(|b| b.swept) { 1 } else { 64 };
+        common::par_for_with(
+            total,
+            chunk,
+            || Local { ctx: &ctx, counts: [[0; OUTCOMES.len()]; 4], evals: 0, bases: 0, swept_bases: 0, max_len: 0, distinct: HashSet::new() },
+            |st, i| {
+                let case = plan.build(&env, s, i);
+                if i % 9973 == 1 {
+                    ctx.sample(format!("stage {s} base {i}: {} ({} bytes{})", case.desc, case.built.bytes.len(), if case.swept { ", swept" } else { "" }));
+                }
+                run_case(&found, &env, st, s, i, &case, &pats, &contexts);
+            },
+        );
+        completed = s + 1;
+    }
+    found.flush(&ctx);
+    ctx.set("stages_completed", completed as u64);
+    ctx.set("states", ctx.get("base_datagrams"));
+    ctx.exhaustive(completed == plan.stages.len());
+    ctx.finish();
+}
